@@ -163,6 +163,16 @@ def proto_mc(run):
            "INVARIANT TypeOK\nINVARIANT NoLostWake\nINVARIANT QuiescentWhenSettled\nCHECK_DEADLOCK FALSE\n"
            % (13 if run.quick else 16))
     lib.mc(run, "MC_Proto", cfg, {}, need_actions=("MNext",), label="MC_Proto[3 keys]")
+    # ... and for any number of steps: NoLostWake as an inductive invariant, discharged by Apalache
+    t0 = lib.time.time()
+    for what, args in (("base", ["--init=Init0", "--length=0"]), ("step", ["--init=IndInit", "--length=1"])):
+        rc, out = lib.sh(["apalache-mc", "check", "--cinit=ConstInit", "--inv=IndInv",
+                          "--out-dir=" + os.path.join(lib.WORK, "apalache")] + args + ["Ind_Proto.tla"],
+                         cwd=lib.SPEC, timeout=900)
+        if "The outcome is: NoError" not in out:
+            raise lib.ToolError(f"Apalache did not discharge the inductive invariant ({what}):\n" + out[-2000:])
+    run.stages.append({"stage": "Ind_Proto[NoLostWake inductive, 3 keys, queue <= 4]", "kind": "apalache-inductive",
+                       "outcome": "NoError (base case and induction step)", "wall_s": round(lib.time.time() - t0, 1)})
 
 
 def proto_suite(run, selftest=False):
